@@ -468,9 +468,25 @@ _run_case_a = run_case
 
 
 def run_case(case):  # noqa: F811
-    if case.get("overlap"):
-        return run_overlap(case)
-    return _run_case_a(case)
+    # A command takes effect or is refused - in either case it completes.  pydsol itself waits at most one second
+    # for its run thread; when the simulator has not come to rest ten seconds after a command (and the harness holds
+    # nothing back), the case is run once more on fresh objects: a hang that repeats is a failure of the protocol,
+    # a hiccup of the machine does not repeat.
+    last = None
+    for _attempt in (0, 1):
+        try:
+            if case.get("overlap"):
+                return run_overlap(case)
+            return _run_case_a(case)
+        except Inconclusive as e:
+            # (every Inconclusive of this module is a wait that ran out: no quiescence, a rendezvous point that was
+            # not reached because a command on the way to it did not come back)
+            last = e
+    out = Outcome()
+    out.label("overlap" if case.get("overlap") else "len=%d" % len(case.get("cmds", [])))
+    out.fail("command-never-completed:" + (sched_id(case) if case.get("overlap") else "sequence"),
+             {"twice in a row": str(last)[:200], "case": case if len(str(case)) < 300 else "(long)"})
+    return out
 
 
 def _issue(sim, h, cmd):
